@@ -5,6 +5,7 @@ From Coq Require Import ExtrOcamlBasic ExtrOcamlString.
 From HV Require Import Model.SexpDefs Gen.GenRefine Spec.SmtQuerySpec Model.SmtTextModel Model.SolveModel
   Model.SolveFsDefs Gen.GenSolveFs Model.SolveFsModel
   Model.CexDefs Gen.GenCexHandler Model.CexModel Model.PathQueryDefs Gen.GenPathQuery Model.PathQueryModel.
+From HV Require Spec.CexPrintSpec Model.CexPrintDefs Gen.GenCexPrint Gen.GenHexify Model.CexPrintModel.
 Import ListNotations.
 Open Scope Z_scope.
 
@@ -209,6 +210,41 @@ Definition c04_pathq (a : list Z) : list Z :=
   | [] => []
   end.
 
+(* ---- what is printed for a counterexample (Model/CexPrintModel.v) and what the printed text denotes
+   (Spec/CexPrintSpec.v).  [n; then per variable: len name; name...; len type; type...; size_bits; value]
+   -> bytes of str(PotentialModel), -1, then [0] or 1 :: per read line (len name; name...; value) *)
+Fixpoint rd_vars (k : nat) (l : list Z) : list CexPrintDefs.mvar :=
+  match k with
+  | O => []
+  | S k' =>
+      match l with
+      | ln :: r =>
+          let (name, r1) := take_n (Z.to_nat ln) r in
+          match r1 with
+          | lt :: r2 =>
+              let (ty, r3) := take_n (Z.to_nat lt) r2 in
+              match r3 with
+              | sz :: v :: r4 => CexPrintDefs.MVar (str_of name) (str_of name) (str_of ty) "BitVec"%string sz v :: rd_vars k' r4
+              | _ => []
+              end
+          | [] => []
+          end
+      | [] => []
+      end
+  end.
+
+Definition c04_render (a : list Z) : list Z :=
+  match a with
+  | n :: r =>
+      let t := CexPrintModel.render_model (rd_vars (Z.to_nat n) r) in
+      (codes_of t ++ [-1] ++
+       match CexPrintSpec.read_cex t with
+       | Some l => 1 :: flat_map (fun p => (Z.of_nat (String.length (fst p)) :: codes_of (fst p)) ++ [snd p]) l
+       | None => [0]
+       end)%list
+  | [] => []
+  end.
+
 Definition table : list (string * (list Z -> list Z)) :=
   [ ("c04_parse_const"%string, c04_parse_const);
     ("c04_parse_var"%string, c04_parse_var);
@@ -216,6 +252,7 @@ Definition table : list (string * (list Z -> list Z)) :=
     ("c04_e2e"%string, c04_e2e);
     ("c04_fs"%string, c04_fs);
     ("c04_handler"%string, c04_handler);
-    ("c04_pathq"%string, c04_pathq) ].
+    ("c04_pathq"%string, c04_pathq);
+    ("c04_render"%string, c04_render) ].
 
 Extraction "_build/C04/entries.ml" table.
